@@ -1,7 +1,7 @@
 (* Correspondence for C20: runs the model of src/testing/assertions.rs on the cases the harness
    ran on the real assertions, and decides agreement and the property instance inside Coq. *)
-From Coq Require Import List ZArith Bool String.
-From IB Require Import Util.J Testing.Assertions.
+From Coq Require Import List ZArith Bool String Lia Orders Mergesort.
+From IB Require Import Util.J Testing.Assertions Testing.AssertionsMore Testing.MockIO.
 Import ListNotations.
 Open Scope Z_scope.
 
@@ -64,7 +64,13 @@ Definition dec_group (j : J) : option (Z * list Z) :=
 Definition dec_groups (j : J) : option (list (Z * list Z)) :=
   match j with JL l => omap dec_group l | _ => None end.
 
-Definition zrange (n : Z) : list Z := map Z.of_nat (seq 0 (Z.to_nat n)).
+(* 0, 1, ..., n-1 (counting up in Z: Z.of_nat on every index would make this quadratic) *)
+Fixpoint zrange_from (start : Z) (k : nat) : list Z :=
+  match k with O => [] | S k' => start :: zrange_from (start + 1) k' end.
+Definition zrange (n : Z) : list Z := zrange_from 0 (Z.to_nat n).
+(* x, x+1, ... counted modulo m (0 <= x < m): the list i |-> (x + i) mod m without a division per element *)
+Fixpoint zcycle (m x : Z) (k : nat) : list Z :=
+  match k with O => [] | S k' => x :: zcycle m (if x + 1 =? m then 0 else x + 1) k' end.
 
 (* ---------- one assertion, as (model result, reference result, exact?) ----------
    exact = the property demands `pass <-> reference`; otherwise only `pass -> reference`
@@ -90,11 +96,489 @@ Fixpoint judge_row (obs : list J) (ms : list (bool * bool * bool)) : option (boo
       | Some (a, p) => let '(a1, p1) := judge o m in Some (a1 && a, p1 && p)
       | None => None
       end
+  | JS _ :: obs', m :: ms' =>
+      (* "unstable": two calls on the same arguments gave different answers *)
+      match judge_row obs' ms' with Some _ => Some (false, false) | None => None end
   | _, _ => None
   end.
 
 Definition finish (r : option (bool * bool)) : verdict :=
   match r with Some (a, p) => ok_verdict a p | None => malformed end.
+
+(* ====================================================================================== *)
+(* the further assertions of ironbeam::testing, typed elements, long inputs                *)
+(* ====================================================================================== *)
+
+(* a faster independent reference for long inputs: merge sort from the standard library *)
+Module ZOrder <: TotalLeBool.
+  Definition t := Z.
+  Definition leb := Z.leb.
+  Theorem leb_total : forall a1 a2, leb a1 a2 = true \/ leb a2 a1 = true.
+  Proof. intros a1 a2. unfold leb. destruct (Z.leb_spec a1 a2); [left; reflexivity|right; apply Z.leb_le; lia]. Qed.
+End ZOrder.
+Module ZSort := Sort ZOrder.
+Definition zmultiset_eqb_fast (a b : list Z) : bool := zlist_eqb (ZSort.sort a) (ZSort.sort b).
+
+Definition judge1 (o : J) (m : bool * bool * bool) : verdict :=
+  match o with
+  | JB b => let '(ag, p) := judge b m in ok_verdict ag p
+  | JS _ => ok_verdict false false
+  | _ => malformed
+  end.
+
+Definition usz (z : Z) : Z := if z =? -1 then 2 ^ 64 - 1 else z.
+
+(* elements whose PartialEq is not reflexive: a negative value equals nothing *)
+Definition irr_eqb (x y : Z) : bool := (0 <=? x) && (x =? y).
+
+(* ---------- long ordered / unordered ---------- *)
+Definition m_ordered_long (a b : list Z) := (assert_collections_equal Z.eqb a b, zlist_eqb a b, true).
+(* the model's count comparison in its linear form (Proofs: counts_equal_fast_eq) *)
+Definition m_unordered_long (a b : list Z) :=
+  (assert_collections_unordered_equal_fast Z.eqb a b, zmultiset_eqb_fast a b, true).
+
+(* ---------- long keyed inputs (same construction as long_kv_b / long_groups_b in c20.rs) ---------- *)
+Definition upd {A} (pos : nat) (f : A -> A) (l : list A) : list A :=
+  firstn pos l ++ match skipn pos l with [] => [] | x :: r => f x :: r end.
+Definition long_kv (n nk : Z) : list (Z * Z) := map (fun i => (i mod nk, i mod 3)) (zrange n).
+Definition long_kv_b (a : list (Z * Z)) (nk mode : Z) (pos : nat) : list (Z * Z) :=
+  let b :=
+    if mode =? 1 then upd pos (fun r => (fst r, (snd r + 1) mod 3)) a
+    else if mode =? 2 then upd pos (fun r => ((fst r + 1) mod nk, snd r)) a
+    else if mode =? 3 then removelast a
+    else if mode =? 4 then
+      match nth_error a pos with
+      | Some r => upd (Nat.modulo (S pos) (List.length a)) (fun _ => r) a
+      | None => a
+      end
+    else a in
+  rev b.
+Definition long_groups (n : Z) : list (Z * list Z) :=
+  map (fun i => (i, map (fun j => (i + j) mod 3) (zrange (i mod 4)))) (zrange n).
+Definition long_groups_b (a : list (Z * list Z)) (mode : Z) (pos : nat) : list (Z * list Z) :=
+  let n := Z.of_nat (List.length a) in
+  let b :=
+    if mode =? 1 then
+      upd pos (fun g => (fst g, match snd g with [] => [0] | v :: r => (v + 1) mod 3 :: r end)) a
+    else if mode =? 2 then upd pos (fun g => (n + Z.of_nat pos, snd g)) a
+    else if mode =? 3 then removelast a
+    else if mode =? 4 then upd pos (fun g => (fst g, snd g ++ [1])) a
+    else a in
+  map (fun g => (fst g, rev (snd g))) (rev b).
+(* references through integer codes (values < 3, groups of <= 5 values) *)
+Definition kv_z (p : Z * Z) : Z := fst p * 4 + snd p.
+Definition group_z (g : Z * list Z) : Z :=
+  fst g * 4096 + fold_left (fun acc v => acc * 4 + v + 1) (zsort (snd g)) 0.
+Definition m_kv_long (a b : list (Z * Z)) :=
+  (assert_kv_collections_equal Z.eqb a b, zmultiset_eqb_fast (map kv_z a) (map kv_z b), true).
+Definition m_grouped_long (a b : list (Z * list Z)) :=
+  (assert_grouped_kv_equal Z.eqb a b, zmultiset_eqb_fast (map group_z a) (map group_z b), true).
+
+Definition dec_modepos (j : J) : option (Z * nat) :=
+  match j with JL [JI m; JI p] => Some (m, Z.to_nat p) | _ => None end.
+
+(* ---------- predicates ---------- *)
+(* observed = [accepted, calls] *)
+Definition judge_pred (fid : Z) (coll : list Z) (p : Z -> bool) (o : J) : option (bool * bool) :=
+  match o with
+  | JL [JB ok; JI calls] =>
+      let truth := map p coll in
+      let '(model, mcalls, ref) :=
+        if fid =? 0 then (assert_all p coll, calls_all p coll, forallb (fun b => b) truth)
+        else if fid =? 1 then (assert_any p coll, calls_until_hit p coll, existsb (fun b => b) truth)
+        else (assert_none p coll, calls_until_hit p coll, negb (existsb (fun b => b) truth)) in
+      Some (Bool.eqb ok model && (calls =? Z.of_nat mcalls), Bool.eqb ok ref)
+  | JS _ => Some (false, false)
+  | _ => None
+  end.
+Fixpoint judge_preds (fid : Z) (coll : list Z) (ps : list (Z -> bool)) (obs : list J) : option (bool * bool) :=
+  match ps, obs with
+  | [], [] => Some (true, true)
+  | p :: ps', o :: obs' =>
+      match judge_pred fid coll p o, judge_preds fid coll ps' obs' with
+      | Some (a1, p1), Some (a, pr) => Some (a1 && a, p1 && pr)
+      | _, _ => None
+      end
+  | _, _ => None
+  end.
+
+(* ---------- maps ---------- *)
+Definition zlast (k : Z) (ins : list (Z * Z)) : option Z :=
+  fold_left (fun acc kv => if fst kv =? k then Some (snd kv) else acc) ins None.
+(* reference: under every key the last inserted values are equal (veq) or absent on both sides *)
+Definition ref_maps (veq : Z -> Z -> bool) (ia ie : list (Z * Z)) : bool :=
+  forallb (fun k => match zlast k ia, zlast k ie with
+                    | Some x, Some y => veq x y
+                    | None, None => true
+                    | _, _ => false
+                    end) (map fst (ia ++ ie)).
+Definition m_maps (veq : Z -> Z -> bool) (ia ie : list (Z * Z)) :=
+  (assert_maps_equal Z.eqb veq (map_of Z.eqb ia) (map_of Z.eqb ie), ref_maps veq ia ie, true).
+Definition long_map_ins (n mode : Z) (pos : nat) : list (Z * Z) * list (Z * Z) :=
+  let a := map (fun i => (i, i mod 7)) (zrange n) in
+  let fresh := n + 5 in
+  let e :=
+    if mode =? 1 then upd pos (fun r => (fst r, snd r + 1)) a
+    else if mode =? 2 then upd pos (fun r => (fresh, snd r)) a
+    else if mode =? 3 then firstn pos a ++ skipn (S pos) a
+    else if mode =? 4 then a ++ [(fresh, 0)]
+    else a in
+  let a' := if mode =? 5 then upd pos (fun r => (fresh, snd r)) a else a in
+  (a', rev e).
+
+(* ---------- files ---------- *)
+Inductive fline := LRec (id name : Z) | LBlank | LSpace | LBad | LHeader.
+Definition dec_rec (j : J) : option (Z * Z) :=
+  match j with JL [JI i; JI n] => Some (i, n) | _ => None end.
+Definition dec_recs (j : J) : option (list (Z * Z)) :=
+  match j with JL l => omap dec_rec l | _ => None end.
+Definition dec_line (j : J) : option fline :=
+  match j with
+  | JL [JI i; JI n] => Some (LRec i n)
+  | JI z => if z =? -1 then Some LBlank else if z =? -2 then Some LSpace
+            else if z =? -3 then Some LBad else if z =? -4 then Some LHeader else None
+  | _ => None
+  end.
+Definition dec_lines (j : J) : option (list fline) :=
+  match j with JL l => omap dec_line l | _ => None end.
+(* Rec's PartialEq: same id, names equal without regard to ASCII case (name 2 = "A", name 1 = "a") *)
+Definition nclass (n : Z) : Z := if n =? 2 then 1 else n.
+Definition rec_eqb (x y : Z * Z) : bool := (fst x =? fst y) && (nclass (snd x) =? nclass (snd y)).
+(* what serde_json / csv do with one line of the harness's line alphabet *)
+Definition jl_blank (l : fline) : bool := match l with LBlank | LSpace => true | _ => false end.
+Definition jl_parse (l : fline) : option (Z * Z) := match l with LRec i n => Some (i, n) | _ => None end.
+Definition csv_blank (l : fline) : bool := match l with LBlank => true | _ => false end.
+Definition csv_parse (h l : fline) : option (Z * Z) :=
+  match h, l with LHeader, LRec i n => Some (i, n) | _, _ => None end.
+Definition print_rec (r : Z * Z) : fline := LRec (fst r) (snd r).
+
+Definition model_file (fmt : Z) (file : option (list fline)) (expected : list (Z * Z)) : bool :=
+  if fmt =? 0 then assert_jsonl_equals rec_eqb jl_blank jl_parse file expected
+  else assert_csv_equals rec_eqb csv_blank csv_parse file expected.
+
+(* reference, written without the model: drop the lines the format ignores (and the header row);
+   what is left must be exactly the expected records, in order *)
+Definition is_rec (l : fline) : bool := match l with LRec _ _ => true | _ => false end.
+Definition rec_code (l : fline) : list Z := match l with LRec i n => [i; nclass n] | _ => [] end.
+Definition ref_file (fmt : Z) (lines : list fline) (expected : list (Z * Z)) : bool :=
+  let want := map (fun r => [fst r; nclass (snd r)]) expected in
+  if fmt =? 0 then
+    let rows := filter (fun l => negb (jl_blank l)) lines in
+    forallb is_rec rows && llist_eqb (map rec_code rows) want
+  else
+    match filter (fun l => negb (csv_blank l)) lines with
+    | [] => match expected with [] => true | _ => false end
+    | h :: rows =>
+        forallb is_rec rows && llist_eqb (map rec_code rows) want
+        && match rows with [] => true | _ => match h with LHeader => true | _ => false end end
+    end.
+Definition m_file (fmt : Z) (lines : list fline) (expected : list (Z * Z)) :=
+  (model_file fmt (Some lines) expected, ref_file fmt lines expected, true).
+
+Definition mock_lines (fmt : Z) (wh : bool) (data : list (Z * Z)) : list fline :=
+  if fmt =? 0 then mock_jsonl_file print_rec data else mock_csv_file print_rec LHeader data wh.
+
+Definition long_data (n : Z) : list (Z * Z) := map (fun i => (i, i mod 8)) (zrange n).
+Definition long_expected (data : list (Z * Z)) (mode : Z) (pos : nat) : list (Z * Z) :=
+  if mode =? 1 then upd pos (fun r => (fst r + 1000000, snd r)) data
+  else if mode =? 2 then upd pos (fun r => (fst r, (Z.of_nat pos mod 8 + 3) mod 8)) data
+  else if mode =? 3 then removelast data
+  else if mode =? 4 then data ++ [(-5, 1)]
+  else if mode =? 5 then firstn pos data ++ skipn (S pos) data
+  else if mode =? 6 then firstn pos data ++ match skipn pos data with [] => [] | x :: r => x :: x :: r end
+  else data.
+Definition long_lines (fmt bl : Z) (via_mock : bool) (data : list (Z * Z)) : list fline :=
+  if via_mock then mock_lines fmt true data
+  else
+    (if fmt =? 0 then [] else [LHeader]) ++
+    flat_map (fun r => (if (0 <? bl) && (fst r mod bl =? bl - 1) then [LBlank] else []) ++ [print_rec r]) data.
+
+Definition check_C20_more (kind : string) (input output : J) : verdict :=
+  if String.eqb kind "rowt" then
+    match input, output with
+    | JL [JI aid; JI _; ja; JI nsym; JI maxlen], JL obs =>
+        match jints ja with
+        | Some a =>
+            let bs := all_seqs (zrange nsym) (Z.to_nat maxlen) in
+            if aid =? 0 then finish (judge_row obs (map (m_ordered a) bs))
+            else if aid =? 1 then finish (judge_row obs (map (m_unordered a) bs))
+            else malformed
+        | None => malformed
+        end
+    | _, _ => malformed
+    end
+  else if String.eqb kind "pairt" then
+    match input with
+    | JL [JI aid; JI _; ja; jb] =>
+        if aid <? 2 then
+          match jints ja, jints jb with
+          | Some a, Some b => judge1 output (if aid =? 0 then m_ordered a b else m_unordered a b)
+          | _, _ => malformed
+          end
+        else if aid =? 2 then
+          match dec_kvs ja, dec_kvs jb with
+          | Some a, Some b => judge1 output (m_kv a b)
+          | _, _ => malformed
+          end
+        else
+          match dec_groups ja, dec_groups jb with
+          | Some a, Some b => judge1 output (m_grouped a b)
+          | _, _ => malformed
+          end
+    | _ => malformed
+    end
+  else if String.eqb kind "longs" then
+    match input, output with
+    | JL [JI aid; JI n; JL jds], JL obs =>
+        match omap jints jds with
+        | Some ds =>
+            let a := zcycle 5 0 (Z.to_nat n) in     (* a[i] = i mod 5 *)
+            let mk d := let b := fold_left (fun l p => upd (Z.to_nat p) (fun x => (x + 1) mod 5) l) d a in
+                        if aid =? 0 then m_ordered_long a b else m_unordered_long a b in
+            finish (judge_row obs (map mk ds))
+        | None => malformed
+        end
+    | _, _ => malformed
+    end
+  else if String.eqb kind "longkv" then
+    match input, output with
+    | JL [JI aid; JI n; JI nk; JL jsets], JL obs =>
+        match omap dec_modepos jsets with
+        | Some sets =>
+            if aid =? 2 then
+              let a := long_kv n nk in
+              finish (judge_row obs (map (fun s => m_kv_long a (long_kv_b a nk (fst s) (snd s))) sets))
+            else
+              let a := long_groups n in
+              finish (judge_row obs (map (fun s => m_grouped_long a (long_groups_b a (fst s) (snd s))) sets))
+        | None => malformed
+        end
+    | _, _ => malformed
+    end
+  else if String.eqb kind "containsrow" then
+    match input, output with
+    | JL [JI _; jl; jxs], JL obs =>
+        match jints jl, jints jxs with
+        | Some l, Some xs =>
+            finish (judge_row obs (map (fun x => (assert_contains Z.eqb l x,
+                                                  negb (Nat.eqb (List.length (filter (Z.eqb x) l)) 0), true)) xs))
+        | _, _ => malformed
+        end
+    | _, _ => malformed
+    end
+  else if String.eqb kind "containslong" then
+    match input, output with
+    | JL [JI n; jps], JL obs =>
+        match jints jps with
+        | Some ps =>
+            let base := zcycle 5 0 (Z.to_nat n) in     (* i mod 5 *)
+            finish (judge_row obs (map (fun pos =>
+              let l := if pos <? 0 then base else upd (Z.to_nat pos) (fun _ => 7) base in
+              (assert_contains Z.eqb l 7, (0 <=? pos) && (pos <? n), true)) ps))
+        | None => malformed
+        end
+    | _, _ => malformed
+    end
+  else if String.eqb kind "predrow" then
+    match input, output with
+    | JL [JI fid; JI len], JL obs =>
+        let coll := zrange len in
+        let ps := map (fun t => fun i => nth (Z.to_nat i) t 0 =? 1) (seqs_of_len [0; 1] (Z.to_nat len)) in
+        finish (judge_preds fid coll ps obs)
+    | _, _ => malformed
+    end
+  else if String.eqb kind "predlong" then
+    match input, output with
+    | JL [JI fid; JI n; JI base; JL jfs], JL obs =>
+        match omap jints jfs with
+        | Some fs =>
+            let coll := zrange n in
+            let ps := map (fun f => fun i => xorb (base =? 1) (existsb (Z.eqb i) f)) fs in
+            finish (judge_preds fid coll ps obs)
+        | None => malformed
+        end
+    | _, _ => malformed
+    end
+  else if String.eqb kind "sizerow" then
+    match input, output with
+    | JL [JI n; JI zst; jms], JL obs =>
+        match jints jms with
+        | Some ms =>
+            let n' := usz n in
+            finish (judge_row obs (map (fun m =>
+              let m' := usz m in
+              ((if n' <? 100000 then assert_collection_size (repeat 7 (Z.to_nat n')) m'
+                else assert_collection_size_len n' m'),
+               (n' <=? m') && (m' <=? n'), true)) ms))
+        | None => malformed
+        end
+    | _, _ => malformed
+    end
+  else if String.eqb kind "zstrow" then
+    match input, output with
+    | JL [JI aid; JI n; jms], JL obs =>
+        match jints jms with
+        | Some ms =>
+            let a := repeat 0 (Z.to_nat n) in
+            finish (judge_row obs (map (fun m =>
+              let b := repeat 0 (Z.to_nat m) in
+              ((if aid =? 0 then assert_collections_equal Z.eqb a b
+                else assert_collections_unordered_equal_fast Z.eqb a b), n =? m, true)) ms))
+        | None => malformed
+        end
+    | _, _ => malformed
+    end
+  else if String.eqb kind "maprow" then
+    match input, output with
+    | JL [JI _; JI _; ja; JI nk; JI nv; JI maxlen], JL obs =>
+        match dec_kvs ja with
+        | Some ia =>
+            let syms := flat_map (fun k => map (fun v => (k, v)) (zrange nv)) (zrange nk) in
+            finish (judge_row obs (map (m_maps Z.eqb ia) (all_seqs syms (Z.to_nat maxlen))))
+        | None => malformed
+        end
+    | _, _ => malformed
+    end
+  else if String.eqb kind "mappair" then
+    match input with
+    | JL [JI _; JI _; ja; je] =>
+        match dec_kvs ja, dec_kvs je with
+        | Some ia, Some ie => judge1 output (m_maps Z.eqb ia ie)
+        | _, _ => malformed
+        end
+    | _ => malformed
+    end
+  else if String.eqb kind "maplong" then
+    match input, output with
+    | JL [JI _; JI _; JI n; JL jsets], JL obs =>
+        match omap dec_modepos jsets with
+        | Some sets =>
+            (* both insertion sequences have pairwise distinct keys here, so the maps are equal iff
+               the sequences are equal as multisets of (key, value) rows *)
+            finish (judge_row obs (map (fun s =>
+              let '(ia, ie) := long_map_ins n (fst s) (snd s) in
+              (assert_maps_equal Z.eqb Z.eqb (map_of Z.eqb ia) (map_of Z.eqb ie),
+               zmultiset_eqb_fast (map (fun p => fst p * 16 + snd p) ia) (map (fun p => fst p * 16 + snd p) ie),
+               true)) sets))
+        | None => malformed
+        end
+    | _, _ => malformed
+    end
+  else if String.eqb kind "rown" then
+    match input, output with
+    | JL [JI aid; ja; JI maxlen], JL obs =>
+        let ml := Z.to_nat maxlen in
+        let kvsyms := flat_map (fun k => map (fun v => (k, v)) [-1; 0; 1]) [0; 1] in
+        if aid =? 0 then
+          match jints ja with
+          | Some a =>
+              finish (judge_row obs (map (fun b =>
+                (assert_collections_equal irr_eqb a b, zlist_eqb a b && forallb (Z.leb 0) a, true))
+                (all_seqs [-1; 0; 1] ml)))
+          | None => malformed
+          end
+        else if aid =? 2 then
+          match dec_kvs ja with
+          | Some a =>
+              finish (judge_row obs (map (fun b =>
+                (assert_kv_collections_equal irr_eqb a b,
+                 lmultiset_eqb (map kv_code a) (map kv_code b) && forallb (fun p => 0 <=? snd p) a, true))
+                (all_seqs kvsyms ml)))
+          | None => malformed
+          end
+        else if aid =? 4 then
+          match jints ja with
+          | Some l =>
+              finish (judge_row obs (map (fun x =>
+                (assert_contains irr_eqb l x, (0 <=? x) && existsb (Z.eqb x) l, true)) [-1; 0; 1]))
+          | None => malformed
+          end
+        else if aid =? 5 then
+          match dec_kvs ja with
+          | Some ia => finish (judge_row obs (map (m_maps irr_eqb ia) (all_seqs kvsyms ml)))
+          | None => malformed
+          end
+        else malformed
+    | _, _ => malformed
+    end
+  else if String.eqb kind "selfn" then
+    match input with
+    | JL [JI aid; ja] =>
+        if aid =? 0 then
+          match jints ja with
+          | Some a => judge1 output (assert_collections_equal irr_eqb a a, forallb (Z.leb 0) a, true)
+          | None => malformed
+          end
+        else if aid =? 2 then
+          match dec_kvs ja with
+          | Some a => judge1 output (assert_kv_collections_equal irr_eqb a a,
+                                     forallb (fun p => 0 <=? snd p) a, true)
+          | None => malformed
+          end
+        else if aid =? 5 then
+          match dec_kvs ja with
+          | Some ia => judge1 output (m_maps irr_eqb ia ia)
+          | None => malformed
+          end
+        else malformed
+    | _ => malformed
+    end
+  else if String.eqb kind "filerow" then
+    match input, output with
+    | JL [JI fmt; JI _; jlines; jes; JI maxlen], JL obs =>
+        match dec_lines jlines, dec_recs jes with
+        | Some lines, Some esyms =>
+            finish (judge_row obs (map (m_file fmt lines) (all_seqs esyms (Z.to_nat maxlen))))
+        | _, _ => malformed
+        end
+    | _, _ => malformed
+    end
+  else if String.eqb kind "filepair" then
+    match input with
+    | JL [JI fmt; JI _; jlines; jexp] =>
+        match dec_lines jlines, dec_recs jexp with
+        | Some lines, Some expected => judge1 output (m_file fmt lines expected)
+        | _, _ => malformed
+        end
+    | _ => malformed
+    end
+  else if String.eqb kind "mockrow" then
+    match input, output with
+    | JL [JI fmt; JI wh; jdata; jes; JI maxlen], JL obs =>
+        match dec_recs jdata, dec_recs jes with
+        | Some data, Some esyms =>
+            let want := map (fun r => [fst r; nclass (snd r)]) data in
+            finish (judge_row obs (map (fun e =>
+              (model_file fmt (Some (mock_lines fmt (wh =? 1) data)) e,
+               (* written by mock_*_file: the file holds exactly `data` *)
+               llist_eqb want (map (fun r => [fst r; nclass (snd r)]) e), true))
+              (all_seqs esyms (Z.to_nat maxlen))))
+        | _, _ => malformed
+        end
+    | _, _ => malformed
+    end
+  else if String.eqb kind "filelong" then
+    match input, output with
+    | JL [JI fmt; JI _; JI n; JI bl; JI via; JL jsets], JL obs =>
+        match omap dec_modepos jsets with
+        | Some sets =>
+            let data := long_data n in
+            let lines := long_lines fmt bl (via =? 1) data in
+            finish (judge_row obs (map (fun s =>
+              let e := long_expected data (fst s) (snd s) in
+              (model_file fmt (Some lines) e,
+               llist_eqb (map (fun r => [fst r; nclass (snd r)]) data)
+                         (map (fun r => [fst r; nclass (snd r)]) e), true)) sets))
+        | None => malformed
+        end
+    | _, _ => malformed
+    end
+  else if String.eqb kind "nofile" then
+    match input with
+    | JL [JI fmt] => judge1 output (model_file fmt None [], false, true)
+    | _ => malformed
+    end
+  else malformed.
 
 Definition check_C20 (kind : string) (input output : J) : verdict :=
   if String.eqb kind "row" then
@@ -211,4 +695,4 @@ Definition check_C20 (kind : string) (input output : J) : verdict :=
         ok_verdict ag p
     | _, _ => malformed
     end
-  else malformed.
+  else check_C20_more kind input output.
